@@ -178,7 +178,22 @@ func TestVerifC16(t *testing.T) {
 						if len(raw) > 6000 {
 							continue
 						}
-						parts = append(parts, vEditText(r, string(raw), []float64{0.3, 0.4, 0.5}[r.Intn(3)]))
+						if r.Intn(3) == 0 {
+							parts = append(parts, vEditText(r, string(raw), []float64{0.3, 0.4, 0.5}[r.Intn(3)]))
+							continue
+						}
+						// all words of the license stay (it remains a candidate) but a long foreign
+						// paragraph in the middle pushes the edit-distance confidence below the
+						// threshold
+						L := len(vNormLicense(string(raw)))
+						j := int(float64(L) * (1/thr - 1) * (1.15 + 0.5*r.Float64()))
+						phrase := "furthermore every recipient waters the plants of the maintainers "
+						junk := strings.Repeat(phrase, j/len(phrase)+1)[:j]
+						mid := len(raw) / 2
+						for mid < len(raw) && raw[mid] != ' ' {
+							mid++
+						}
+						parts = append(parts, string(raw[:mid])+" "+junk+" "+string(raw[mid:]))
 					}
 					q := strings.Join(parts, "\n\nsoftware license terms\n\n")
 					for _, hdr := range []bool{true, false} {
